@@ -24,6 +24,8 @@ pub struct GridCheck {
     pub extra_env: Vec<(String, String)>,
     /// signature of a known-finding class for a program (None: not in any known class)
     pub known_sig: Option<fn(&Prog) -> Option<String>>,
+    /// extra lines for the generated crate's [dependencies] ("#nofutures": no dependency called futures)
+    pub extra_deps: String,
     /// consecutive programs forming one comparison group (C07: the same program under the macro
     /// names of one class); batches keep groups together
     pub group: usize,
@@ -60,6 +62,10 @@ pub use crate::batch::BatchResult;
 
 /// Builds and runs `progs` (idx = position) as one generated crate.
 pub fn build_and_run(pkg: &str, progs: &[Prog], mode: &str, budget: usize, seed: u64, features: &[&str], timeout_s: u64, extra_env: &[(String, String)], nbins: usize) -> BatchResult {
+    build_and_run_deps(pkg, progs, mode, budget, seed, features, timeout_s, extra_env, nbins, "")
+}
+
+pub fn build_and_run_deps(pkg: &str, progs: &[Prog], mode: &str, budget: usize, seed: u64, features: &[&str], timeout_s: u64, extra_env: &[(String, String)], nbins: usize, extra_deps: &str) -> BatchResult {
     let cases: Vec<CaseSrc> = progs.iter().enumerate().map(|(i, p)| case_src(p, i)).collect();
     let mut env = vec![
         ("JV_MODE".to_string(), mode.to_string()),
@@ -67,7 +73,7 @@ pub fn build_and_run(pkg: &str, progs: &[Prog], mode: &str, budget: usize, seed:
         ("JV_BUDGET".to_string(), budget.to_string()),
     ];
     env.extend(extra_env.iter().cloned());
-    batch::build_and_run_src(pkg, render::file_header(), &cases, &main_text, &env, features, "", timeout_s, nbins)
+    batch::build_and_run_src(pkg, render::file_header(), &cases, &main_text, &env, features, extra_deps, timeout_s, nbins)
 }
 
 // ------------------------------------------------------------------ shrinking
@@ -239,7 +245,7 @@ pub fn shrink(check: &GridCheck, seed: u64, start: Found, max_steps: usize) -> F
             }
             steps += 1;
             // all candidates of a chunk are built as one crate (one per binary)
-            let res = build_and_run(&pkg, chunk, &check.mode, check.budget, seed, &check.features, check.timeout_s, &check.extra_env, 16);
+            let res = build_and_run_deps(&pkg, chunk, &check.mode, check.budget, seed, &check.features, check.timeout_s, &check.extra_env, 16, &check.extra_deps);
             if let Some((i, d, c)) = first_violation(&res) {
                 // a compile failure must stay the same failure (first message), or shrinking may
                 // drift into a different problem
@@ -287,7 +293,7 @@ pub fn run(check: GridCheck, tier: &str, seed: u64) -> i32 {
     let mut exit = 0;
     let bsize = (check.batch_size.max(1) / check.group.max(1)).max(1) * check.group.max(1);
     for (ci, chunk) in progs.chunks(bsize).enumerate() {
-        let res = build_and_run(&pkg, chunk, &check.mode, check.budget, seed.wrapping_add(ci as u64), &check.features, check.timeout_s, &check.extra_env, 16);
+        let res = build_and_run_deps(&pkg, chunk, &check.mode, check.budget, seed.wrapping_add(ci as u64), &check.features, check.timeout_s, &check.extra_env, 16, &check.extra_deps);
         if !res.infra.is_empty() {
             ev.infra.extend(res.infra.iter().cloned());
         }
@@ -362,7 +368,7 @@ pub fn run(check: GridCheck, tier: &str, seed: u64) -> i32 {
             &check.id,
             &json!({
                 "property": check.id, "engine": "R-grid", "mode": check.mode, "seed": seed, "tier": tier, "budget": check.budget,
-                "features": check.features, "extra_env": check.extra_env,
+                "features": check.features, "extra_env": check.extra_env, "extra_deps": check.extra_deps,
                 "program": small.prog.to_json(),
                 "group": group_progs,
                 "rendered": render::case_fn(&small.prog, 0),
@@ -408,7 +414,7 @@ pub fn replay(v: &Value) -> i32 {
         Some(g) if !g.is_empty() => g.iter().map(Prog::from_json).collect(),
         _ => vec![prog],
     };
-    let res = build_and_run(&format!("jvr_{}", id.to_lowercase()), &progs, &mode, v["budget"].as_u64().unwrap_or(256) as usize, v["seed"].as_u64().unwrap_or(0), &feats_ref, 120, &extra, 1);
+    let res = build_and_run_deps(&format!("jvr_{}", id.to_lowercase()), &progs, &mode, v["budget"].as_u64().unwrap_or(256) as usize, v["seed"].as_u64().unwrap_or(0), &feats_ref, 120, &extra, 1, v["extra_deps"].as_str().unwrap_or(""));
     let post_found = if progs.len() > 1 { crate::checks::post_for(&id).map(|f| f(&progs, &res.reports)).unwrap_or_default() } else { vec![] };
     if let Some((_, d, _)) = first_violation(&res) {
         println!("replay: violation reproduced: {}", d);
